@@ -1,8 +1,8 @@
 (** extraction of the MULgraph model: one case per line.
       W <geo>          model write          -> OK <hex bytes> | RAISE <exn>
       R <hex bytes>    model read           -> OK <geo> | RAISE <exn>
-      F <geo>          hypotheses           -> wf=<0|1> nwf=<0|1> rt=<0|1> idemok=<0|1> idem=<0|1>
-                         wf / nwf / idemok: the boolean hypotheses of the theorems (read-back, fits, field-level re-format)
+      F <geo>          hypotheses           -> wf=<0|1> nwf=<0|1> rt=<0|1> idemok=<0|1> nidem=<0|1> idem=<0|1>
+                         wf / nwf / idemok / nidem: the boolean hypotheses of the theorems (read-back, fits, field-level re-format, arithmetic)
                          rt:   read (write g) = Ok (canon g)  (evaluated, as the theorem says when wf=1)
                          idem: write (canon g) = write g      (evaluated, as the theorem says when wf=1 and idemok=1)
       X <op> a b       double arithmetic    -> neg:m:e
@@ -10,7 +10,7 @@
 From Coq Require Import Ascii String List Bool Arith ZArith NArith.
 From PTBase Require Import Exn PyStr PyNum PyVal Fmt FixedFormat Wire.
 From Gen Require Import GenTables GenMulgrid.
-From P Require Import Flt Lines MulgridIO RoundTrip Header Idem Fields Natural.
+From P Require Import Flt Lines MulgridIO RoundTrip Header Idem Fields Natural NatIdem.
 Import ListNotations.
 
 Definition colon : ascii := ":"%char.
@@ -192,7 +192,7 @@ Definition run_case (line : str) : str :=
                       | Raise _ => false end in
             let idem := res_eqb (write (canon g)) w in
             app (s2l "wf=") (app (show_bool (wf g)) (app (s2l " nwf=") (app (show_bool (nwf g)) (app (s2l " rt=") (app (show_bool rt)
-              (app (s2l " idemok=") (app (show_bool (idem_ok g)) (app (s2l " idem=") (show_bool idem)))))))))
+              (app (s2l " idemok=") (app (show_bool (idem_ok g)) (app (s2l " nidem=") (app (show_bool (nidem_ok g)) (app (s2l " idem=") (show_bool idem)))))))))))
         end
       else if str_eqb k (s2l "X") then
         match args with
